@@ -53,7 +53,11 @@ var resRuleSets = [][]string{nil, {"X-Added: v"}, {"-Set-Cookie"}, {"-X-*"}, {"%
 var statuses = []struct {
 	code   int
 	reason string
-}{{200, "OK"}, {201, "Made It"}, {204, "No Content"}, {304, "Not Modified"}, {404, "Not Found"}, {500, "Oops Custom Reason"}, {200, ""}}
+}{{200, "OK"}, {201, "Made It"}, {204, "No Content"}, {304, "Not Modified"}, {404, "Not Found"}, {500, "Oops Custom Reason"}, {200, ""},
+	// a status line that ends right after the code ("HTTP/1.1 304" without the space RFC 9112 asks for; Go's client accepts it)
+	{304, noSpace}, {204, noSpace}, {200, noSpace}}
+
+const noSpace = "\x00no-space-after-the-code"
 
 var sizes = []int{2, 0, 1, 4095, 4096, 4097, 32767, 32768, 32769, 70000}
 
@@ -174,6 +178,9 @@ func (e exchange) response() h1x.Msg {
 	if e.reason == "" {
 		start = fmt.Sprintf("%s %d ", e.proto, e.status)
 	}
+	if e.reason == noSpace {
+		start = fmt.Sprintf("%s %d", e.proto, e.status)
+	}
 	m := h1x.Msg{Start: start, Fields: append([]F{}, resShapes[e.shape].fields...), Framing: e.framing, Chunks: e.chunks, Trailers: e.trailers}
 	body := e.plain()
 	if e.gzip {
@@ -245,7 +252,7 @@ func expectResponse(x *explore.X, e exchange, got httpwire.Msg, handlerMode bool
 	if got.Status != e.status {
 		fail("status", "status %d, want %d", got.Status, e.status)
 	}
-	if e.reason != "" && got.Reason != e.reason && !handlerMode { // net/http.Server always writes the standard phrase
+	if e.reason != "" && e.reason != noSpace && got.Reason != e.reason && !handlerMode { // net/http.Server always writes the standard phrase
 		fail("reason", "reason phrase %q, want %q", got.Reason, e.reason)
 	}
 	if got.Proto != "HTTP/1.1" && got.Proto != "HTTP/1.0" {
@@ -741,7 +748,7 @@ func twoConnections(x *explore.X) {
 
 func TestC02(t *testing.T) {
 	s := explore.NewSuite(t, "C02", "exploration",
-		"sequences of 1-3 exchanges on one client connection; each exchange = request method(3) x client version(2) x client Connection option(3) x origin status(7) x header shape(8) x framing(CL, chunked, EOF-delimited 1.1, EOF-delimited 1.0) x size(10) x chunking/trailers(5) x content(plain, gzip solicited by the proxy, gzip solicited by the client, event stream) x origin write segmentation(8) x configuration(TCP server, TestingHTTPHandler, MITM) x configured --response-header rule set(6: none, append, remove, prefix removal, rename, set-empty+remove); all combinations with at most D deviations (D=3 quick, 4 thorough) from the default sequence are executed and the client's byte stream is parsed by the independent parser and compared message by message with expectResponse; plus (two-connections) the full product framing x gzip x size x mode (optionally after an earlier download that its client aborted mid-body) of two connections of which one client stops reading in the middle of a 70000-byte response while the other performs a complete exchange, both compared exactly; plus the full product of the incremental-delivery scenario (stream kind x event size x events x client version x configuration); non-trivial = at least one response was compared")
+		"sequences of 1-3 exchanges on one client connection; each exchange = request method(3) x client version(2) x client Connection option(3) x origin status(10, incl. status lines without reason phrase and without the space after the code) x header shape(8) x framing(CL, chunked, EOF-delimited 1.1, EOF-delimited 1.0) x size(10) x chunking/trailers(5) x content(plain, gzip solicited by the proxy, gzip solicited by the client, event stream) x origin write segmentation(8) x configuration(TCP server, TestingHTTPHandler, MITM) x configured --response-header rule set(6: none, append, remove, prefix removal, rename, set-empty+remove); all combinations with at most D deviations (D=3 quick, 4 thorough) from the default sequence are executed and the client's byte stream is parsed by the independent parser and compared message by message with expectResponse; plus (two-connections) the full product framing x gzip x size x mode (optionally after an earlier download that its client aborted mid-body) of two connections of which one client stops reading in the middle of a 70000-byte response while the other performs a complete exchange, both compared exactly; plus the full product of the incremental-delivery scenario (stream kind x event size x events x client version x configuration); non-trivial = at least one response was compared")
 	s.Assume = []string{"simnet models TCP", "httpwire is trusted", "compress/gzip is used to build and check gzip bodies"}
 	s.Add(explore.Scenario{Name: "exchanges", Remote: true, MaxDev: map[string]int{"quick": 3, "thorough": 4},
 		Run: func(x *explore.X) { world.Run(t, x, func() { scenario(x, false) }) }})
